@@ -240,3 +240,39 @@ Definition told (l : N) (tr : list rev) : bool :=
 Definition obs_c10_final_ok (tr : list rev) : bool :=
   forallb (fun l =>
     stream_polled l tr || (told l tr && closed_done l tr) || sink_errored l tr) (server_labels tr).
+
+(** end of a drained history of a live router (every sink ready, wake-driven or not): a request
+    handed to the replier's sink has also been flushed to it, unless that replier has gone
+    (stream ended or failed, sink failed) -- "never sleeps on undone work" for the request leg *)
+Definition obs_dirty_s (l : N) (tr : list rev) : bool :=
+  fold_left (fun d e => match e with
+                        | VSink l' (OSend _) ROk => if l =? l' then true else d
+                        | VSink l' OFlush ROk | VSink l' OClose ROk => if l =? l' then false else d
+                        | _ => d end) tr false.
+Definition stream_gone (l : N) (tr : list rev) : bool :=
+  existsb (fun e => match e with VStream l' FEnd | VStream l' FErrR => l =? l' | _ => false end) tr.
+Definition obs_requests_flushed (tr : list rev) : bool :=
+  forallb (fun l => sink_errored l tr || stream_gone l tr || negb (obs_dirty_s l tr)) (server_labels tr).
+
+(** end of a drained history of a live router: while a replier is bound whose stream is alive and
+    whose sink never failed in poll_ready / flush / close (a refused send is not a failure of the
+    replier), every request pulled from a requestor has been offered to a replier's sink -- a
+    replier is not dropped, and a request is not stranded, because of somebody else's frame *)
+Definition sink_broken (l : N) (tr : list rev) : bool :=
+  existsb (fun e => match e with
+                    | VSink l' OReady RErr | VSink l' OFlush RErr | VSink l' OClose RErr => l =? l'
+                    | _ => false end) tr.
+Definition live_replier (tr : list rev) : bool :=
+  existsb (fun l => stream_polled l tr && negb (stream_gone l tr) && negb (sink_broken l tr) && negb (told l tr))
+          (server_labels tr).
+(** the most recently pulled request has been offered to a replier's sink (requests pulled while
+    no replier is bound may be superseded: the property promises delivery only under a bound replier) *)
+Definition last_pull_offered (tr : list rev) : bool :=
+  let srv := server_labels tr in
+  let cl := client_labels tr in
+  fold_left (fun ok e => match e with
+                         | VStream l (FItem (FMsg _)) => if existsb (N.eqb l) cl then false else ok
+                         | VSink l (OSend (FMsg _)) _ => if existsb (N.eqb l) srv then true else ok
+                         | _ => ok end) tr true.
+Definition obs_no_request_stranded (tr : list rev) : bool :=
+  negb (live_replier tr) || last_pull_offered tr.
